@@ -63,7 +63,7 @@ func c07Config(variant, servers int) string {
 	var sb strings.Builder
 	sb.WriteString("parser {\n  relaxed = [\"relaxed/.*\"]\n}\n")
 	for i := 0; i < servers; i++ {
-		fmt.Fprintf(&sb, "prometheus \"prom%c\" {\n  uri = \"http://prom%d:9090\"\n  timeout = \"30s\"\n  rateLimit = 1000000000\n  tags = [\"t%d\", \"all\"]\n}\n", 'a'+i, i, i)
+		fmt.Fprintf(&sb, "prometheus \"prom%c\" {\n  uri = \"http://prom%d:9090\"\n  timeout = \"30s\"\n  rateLimit = 2000000000\n  tags = [\"t%d\", \"all\"]\n}\n", 'a'+i, i, i)
 	}
 	if variant >= 1 {
 		sb.WriteString("rule {\n  match { kind = \"alerting\" }\n  label \"severity\" {\n    required = true\n    severity = \"bug\"\n  }\n  annotation \"summary\" {\n    required = true\n    severity = \"warning\"\n  }\n}\n")
